@@ -18,13 +18,15 @@ MENU = ["leaf:dd", "ins:ddirty", "ins:raise", "wrap:try", "leaf:sh", "ins:sync"]
 CATS = ["dedup-identity", "dedup-cross-key", "dedup-table-residue", "resumed-uncomputed", "hang", "worker-died"]
 BODIES = ["ret", "y1", "y2", "y1raise", "selfsync"]
 LADDER = {"quick": [(4, 1, ["call"]), (3, 2, ["call"])],
-          "thorough": [(5, 1, ["call"]), (4, 2, ["call"]), (3, 3, ["call"])]}
+          "thorough": [(5, 1, ["call"]), (4, 2, ["call"], {"only_bodies": ["y2"]}), (3, 2, ["call"])]}
 SPEC = {"r1": False, "r2": False, "need": ["dd"]}
 
 
 def jobs(tier, seed):
     for b in BODIES:
         for j in progx.ladder_jobs(LADDER[tier], MENU, CATS, SPEC):
+            if "only_bodies" in j and b not in j["only_bodies"]:
+                continue
             j["globals"] = [("ddbody", b)]
             yield j
 
